@@ -403,6 +403,16 @@ RESPELLED = [
      {"hours": 191}, {"weeks": 1, "hours": 23}],
     [{"weeks": 5, "months": 1, "days": -1}, {"months": 1, "days": 34},
      {"months": 1, "weeks": 4, "hours": 144}],
+    # neighbours of a week-form duration within the same day (either side)
+    [{"weeks": 1}, {"days": 7, "hours": 1}, {"days": 7, "seconds": 1},
+     {"days": 6, "hours": 23}],
+    [{"days": 7, "hours": 1}, {"weeks": 1}, {"hours": 169},
+     {"days": 7, "minutes": 1}],
+    [{"weeks": -1}, {"days": -7, "hours": -1}, {"days": -7, "seconds": 1},
+     {"days": -6, "hours": -23}],
+    [{"weeks": 52}, {"days": 364, "seconds": 86399}, {"hours": 8737},
+     {"days": 364, "seconds": 0.5}],
+    [{"weeks": 0}, {"seconds": 1}, {"hours": 23}, {"seconds": -1}],
     [{"weeks": 2, "minutes": 30, "seconds": -1800}, {"weeks": 2},
      {"days": 14}, {"weeks": 2, "days": 0}],
 ]
